@@ -185,6 +185,18 @@ def run(ctx):
                 okord = False
     ck.expect(okord, 'C10-D1', pn.qual, 'IPv4 canonicalisation -> IDNA/lower -> forbidden-character check -> return',
               'host normalisation steps are missing or out of order (%s)' % pos, pn.loc())
+    # the refused set must contain every delimiter that would move when the reassembled URL is parsed again: IDNA (NFKC)
+    # maps compatibility characters (U+FF0F, U+FF1F, U+FF03, U+2100 ...) onto them after the authority was cut out
+    try:
+        forb = set(repo.fold(repo.module(URL), ast.Name(id='FORBIDDEN_HOSTNAME_CHARS', ctx=ast.Load())))
+    except (ValueError, TypeError):
+        forb = None
+    need = set('#%/:?@[\\] ')
+    ck.expect(forb is not None and need <= forb, 'C10-D1', URL + ':FORBIDDEN_HOSTNAME_CHARS',
+              'refused host characters include %s' % ' '.join(sorted(need)),
+              'the host check no longer refuses %s: a host whose IDNA mapping produces such a delimiter (e.g. U+FF0F -> "/") is '
+              'accepted and the normalised URL parses back to a different host and path' % (
+                  ' '.join(repr(c) for c in sorted(need - (forb or set()))) if forb is not None else 'a constant set'), 'wpull/url.py')
     nh = repo.func(URL + ':normalize_hostname')
     names = [U.attr_name(c) for c in U.calls(nh.node)]
     idna = any(U.attr_name(c) == 'encode' and c.args and isinstance(c.args[0], ast.Constant) and c.args[0].value == 'idna'
